@@ -67,7 +67,9 @@ func runC02(w *World, r *Report) {
 				okVal := strings.HasPrefix(Path(val), "builtin.append(assert((public-types.ContextI).Get(param:p.contextMemory, param:key)#0)") && Derives(val, func(x ssa.Value) bool { return Path(x) == "param:value" })
 				r.Check(op == "<" && okVal && Path(c.Common().Args[0]) == "param:key", "R1", "AtomicSAdd/append-guard", posOf(c), "member appended under len(set) %q maxAllowed (want <), stored value = set+value: %v", op, okVal)
 			} else {
-				ok := condsHave(CondsOf(c.Block()), false, func(v ssa.Value) bool { return isCallTo0(v, "ContextI).Exists") && strings.HasSuffix(Path(v), "param:key)") })
+				ok := condsHave(CondsOf(c.Block()), false, func(v ssa.Value) bool {
+					return isCallTo0(v, "ContextI).Exists") && strings.HasSuffix(Path(v), "param:key)")
+				})
 				r.Check(ok, "R1", "AtomicSAdd/init-only-when-absent", posOf(c), "the empty set is created only when the key does not exist yet")
 			}
 		}
@@ -264,7 +266,9 @@ func c02Release(w *World, r *Report) {
 		} else {
 			d := drops[0]
 			cs := CondsOf(d.Block())
-			early := condsHave(cs, true, func(v ssa.Value) bool { return isCallTo0(v, "ReqLunarAction).IsEarlyReturnType") && strings.Contains(Path(v), "ReqAction") })
+			early := condsHave(cs, true, func(v ssa.Value) bool {
+				return isCallTo0(v, "ReqLunarAction).IsEarlyReturnType") && strings.Contains(Path(v), "ReqAction")
+			})
 			extra := []string{}
 			for _, c := range cs {
 				p := Path(c.V)
@@ -350,8 +354,12 @@ func c02Release(w *World, r *Report) {
 		r.Check(okPop, "R6", "OnRequestDrop/single-winner-pop", od.Pos(), "the association is taken with Pop (load-and-delete), not Get: exactly one of several racing droppers obtains the quota")
 		if len(decs) == 1 {
 			rels := Rels(decs[0].Block())
-			opE, _ := FindRel(rels, func(v ssa.Value) bool { return strings.Contains(Path(v), "ContextI).Pop(") && strings.HasSuffix(Path(v), "#1") }, isNilConst)
-			okT := condsHave(CondsOf(decs[0].Block()), true, func(v ssa.Value) bool { return strings.HasPrefix(Path(v), "assert(") && strings.HasSuffix(Path(v), "#1") })
+			opE, _ := FindRel(rels, func(v ssa.Value) bool {
+				return strings.Contains(Path(v), "ContextI).Pop(") && strings.HasSuffix(Path(v), "#1")
+			}, isNilConst)
+			okT := condsHave(CondsOf(decs[0].Block()), true, func(v ssa.Value) bool {
+				return strings.HasPrefix(Path(v), "assert(") && strings.HasSuffix(Path(v), "#1")
+			})
 			fromPop := strings.Contains(Path(decs[0].Common().Value), "ContextI).Pop(")
 			r.Check(opE == "==" && okT && fromPop && Path(decs[0].Common().Args[0]) == "param:APIStream", "R6", "OnRequestDrop/dec-what-was-popped", posOf(decs[0]), "Dec runs on the popped quota under err %q nil and a successful type assertion=%v", opE, okT)
 		} else {
@@ -371,7 +379,9 @@ func c02Release(w *World, r *Report) {
 		} else {
 			s := sets[0]
 			cs := CondsOf(s.Block())
-			notExists := condsHave(cs, false, func(v ssa.Value) bool { return isCallTo0(v, "ContextI).Exists") && strings.HasSuffix(Path(v), "param:reqID)") })
+			notExists := condsHave(cs, false, func(v ssa.Value) bool {
+				return isCallTo0(v, "ContextI).Exists") && strings.HasSuffix(Path(v), "param:reqID)")
+			})
 			op, _ := FindRel(relsOfConds(cs), pathRe(`^param:reqID$`), func(v ssa.Value) bool { s, ok := constString(v); return ok && s == "" })
 			okArgs := Path(s.Common().Args[0]) == "param:reqID" && strings.Contains(Path(s.Common().Args[1]), ".GetQuota(") && strings.HasSuffix(Path(s.Common().Value), "rm.reqIDToQuota")
 			r.Check(notExists && op == "!=" && okArgs, "R6", "GetQuota/first-association-kept", posOf(s), "reqID->quota is recorded under reqID %q \"\" and only when no association exists yet=%v (a later lookup of another quota must not overwrite the one that holds the slot)", op, notExists)
@@ -562,7 +572,9 @@ func c02IncDec(w *World, r *Report) {
 		r.Undec("R9", "Inc/SAdd", inc.Pos(), "expected one SAdd, found %d", len(sadd))
 		return
 	}
-	isIncd := func(v ssa.Value) bool { return strings.HasSuffix(Path(v), "#0") && strings.Contains(Path(v), "AtomicSAddWithMaxValuesAllowed(") }
+	isIncd := func(v ssa.Value) bool {
+		return strings.HasSuffix(Path(v), "#0") && strings.Contains(Path(v), "AtomicSAddWithMaxValuesAllowed(")
+	}
 	setSt := CallsIn(inc, false, "concurrentStrategy).setReqStatus")
 	mem := fieldStores(inc, "member")
 	// guard: only requests not seen yet
